@@ -20,6 +20,7 @@ class RefBlockServer(Peer):
         self.szx = szx
         self.reduce_at, self.reduce_to = reduce_at, reduce_to
         self.misbehave = misbehave
+        self.changed_served = False      # a block of the changed representation (b2-etag*) was really served
         self.etag = etag
         self.asm = {}            # src -> dict(body, szx)
         self.bodies = []         # completed request bodies (src, method, body)
@@ -137,10 +138,12 @@ class RefBlockServer(Peer):
             # the representation changed and the server stopped sending an ETag
             rep = bytes((b ^ 0x3C) for b in rep)
             etag = None
+            self.changed_served = True
         if mb and mb[0] == "b2-etag" and num >= mb[1]:
             # the representation really changed: other bytes under another ETag from this block on
             rep = bytes((b ^ 0x5A) for b in rep)
             etag = b"E2"
+            self.changed_served = True
         chunk = rep[num * size:(num + 1) * size]
         more = (num + 1) * size < len(rep)
         rnum = num
